@@ -2187,7 +2187,11 @@ class VM:
             replace_value = args[1] if len(args) > 1 else UNDEFINED
 
             if isinstance(pattern, JSRegExp):
-                replacement = to_string(replace_value)
+                # A function is called for every match; anything else is a template
+                functional = isinstance(replace_value, JSFunction) or callable(
+                    replace_value
+                )
+                replacement = "" if functional else to_string(replace_value)
                 # Replace with regex using microjs.regex
                 try:
                     self._arm_regex(pattern)
@@ -2212,6 +2216,20 @@ class VM:
                         result = result.replace("\x00DOLLAR\x00", "$")
                         return result
 
+                    def call_replacer(match_result):
+                        # replacer(match, capture 1, ..., offset, subject)
+                        captures = [
+                            UNDEFINED if match_result[i] is None else match_result[i]
+                            for i in range(1, capture_count)
+                        ]
+                        result = self._call_callback(
+                            replace_value,
+                            [match_result[0], *captures, match_result.index, s],
+                        )
+                        return to_string(result)
+
+                    substitution = call_replacer if functional else handle_replacement
+
                     result_parts = []
                     last_end = 0
                     # A global replace starts at 0 and leaves lastIndex at 0; a sticky
@@ -2230,7 +2248,7 @@ class VM:
                         # Add the part before this match
                         result_parts.append(s[last_end : match_result.index])
                         # Add the replacement
-                        result_parts.append(handle_replacement(match_result))
+                        result_parts.append(substitution(match_result))
 
                         # Move past the match
                         match_len = len(match_result[0]) if match_result[0] else 0
